@@ -248,6 +248,9 @@ func (maps *trackedMaps) processUnfiltered(ctx context.Context, ef *Filter, filt
 							f = f.Elem()
 						}
 						if f.Kind() == reflect.Ptr {
+							if f.IsNil() {
+								continue
+							}
 							f = f.Elem()
 						}
 						if f.Type() == reflect.TypeOf(structpb.Struct{}) {
